@@ -1,0 +1,46 @@
+//go:build verif
+
+// Contracts for the verif build tag: comment-only, read by /verif/engine (govc).
+package dnsutil
+
+//@ # ---- C04: cache lifetime = min over the counted records, covering RRSIG expirations and (negative answers)
+//@ # the SOA MINIMUM; floored at 5 s, capped at 24 h
+//@ spec ttlOf(rr dns.RR) time.Duration := time.Duration(hdrOf(rr).Ttl) * 1000000000
+//@ spec sigTTL(sig *dns.RRSIG, now time.Time) time.Duration := ite(int64(sig.Expiration) * 1000000000 - inst(now) <= 0, 5000000000, ite(int64(sig.Expiration) * 1000000000 - inst(now) < time.Duration(sig.Hdr.Ttl) * 1000000000, int64(sig.Expiration) * 1000000000 - inst(now), time.Duration(sig.Hdr.Ttl) * 1000000000))
+//@ pred rrWF(rs []dns.RR) := forall i int :: {rs[i]} 0 <= i && i < len(rs) ==> rs[i] != nil && (dyntype(rs[i], *dns.RRSIG) ==> as(rs[i], *dns.RRSIG) != nil) && (dyntype(rs[i], *dns.SOA) ==> as(rs[i], *dns.SOA) != nil)
+//@
+//@ func getTTL
+//@   requires rr != nil
+//@   modifies nothing
+//@   ensures result == ttlOf(rr) && 0 <= result && result <= 4294967295000000000
+//@
+//@ func getRRSIGTTL
+//@   requires sig != nil && real(now)
+//@   modifies nothing
+//@   ensures result == sigTTL(sig, now)
+//@
+//@ func hasRecords
+//@   requires msg != nil && rrWF(msg.Extra)
+//@   modifies nothing
+//@   loop 1 invariant 0 <= extraRecords && extraRecords <= rangeidx
+//@
+//@ func CalculateCacheTTL
+//@   requires msg != nil && rrWF(msg.Answer) && rrWF(msg.Ns) && rrWF(msg.Extra)
+//@   modifies nothing
+//@   ensures 5000000000 <= result && result <= 86400000000000
+//@   loop 1 invariant minTTL <= 86400000000000
+//@   loop 1 invariant forall j int :: {msg.Answer[j]} 0 <= j && j < rangeidx ==> minTTL <= ttlOf(msg.Answer[j]) && (dyntype(msg.Answer[j], *dns.RRSIG) ==> minTTL <= sigTTL(as(msg.Answer[j], *dns.RRSIG), now))
+//@   loop 2 invariant minTTL <= 86400000000000
+//@   loop 2 invariant forall j int :: {msg.Answer[j]} 0 <= j && j < len(msg.Answer) ==> minTTL <= ttlOf(msg.Answer[j]) && (dyntype(msg.Answer[j], *dns.RRSIG) ==> minTTL <= sigTTL(as(msg.Answer[j], *dns.RRSIG), now))
+//@   loop 2 invariant forall j int :: {msg.Ns[j]} 0 <= j && j < rangeidx ==> minTTL <= ttlOf(msg.Ns[j]) && (dyntype(msg.Ns[j], *dns.RRSIG) ==> minTTL <= sigTTL(as(msg.Ns[j], *dns.RRSIG), now)) && (isNegative && dyntype(msg.Ns[j], *dns.SOA) ==> minTTL <= time.Duration(as(msg.Ns[j], *dns.SOA).Minttl) * 1000000000)
+//@   loop 3 invariant minTTL <= 86400000000000
+//@   loop 3 invariant forall j int :: {msg.Answer[j]} 0 <= j && j < len(msg.Answer) ==> minTTL <= ttlOf(msg.Answer[j]) && (dyntype(msg.Answer[j], *dns.RRSIG) ==> minTTL <= sigTTL(as(msg.Answer[j], *dns.RRSIG), now))
+//@   loop 3 invariant forall j int :: {msg.Ns[j]} 0 <= j && j < len(msg.Ns) ==> minTTL <= ttlOf(msg.Ns[j]) && (dyntype(msg.Ns[j], *dns.RRSIG) ==> minTTL <= sigTTL(as(msg.Ns[j], *dns.RRSIG), now)) && (isNegative && dyntype(msg.Ns[j], *dns.SOA) ==> minTTL <= time.Duration(as(msg.Ns[j], *dns.SOA).Minttl) * 1000000000)
+//@   loop 3 invariant forall j int :: {msg.Extra[j]} 0 <= j && j < rangeidx && hdrOf(msg.Extra[j]).Rrtype != dns.TypeOPT ==> minTTL <= ttlOf(msg.Extra[j]) && (dyntype(msg.Extra[j], *dns.RRSIG) ==> minTTL <= sigTTL(as(msg.Extra[j], *dns.RRSIG), now))
+//@   # the final value is max(5 s, min(24 h, minTTL)) with minTTL below every counted record / signature / SOA minimum
+//@   assert at return#4: forall j int :: {msg.Answer[j]} 0 <= j && j < len(msg.Answer) ==> minTTL <= ttlOf(msg.Answer[j]) && (dyntype(msg.Answer[j], *dns.RRSIG) ==> minTTL <= sigTTL(as(msg.Answer[j], *dns.RRSIG), now))
+//@   assert at return#4: forall j int :: {msg.Ns[j]} 0 <= j && j < len(msg.Ns) ==> minTTL <= ttlOf(msg.Ns[j]) && (isNegative && dyntype(msg.Ns[j], *dns.SOA) ==> minTTL <= time.Duration(as(msg.Ns[j], *dns.SOA).Minttl) * 1000000000)
+//@   assert at return#4: result == 5000000000 && minTTL < 5000000000
+//@   assert at return#6: forall j int :: {msg.Answer[j]} 0 <= j && j < len(msg.Answer) ==> result <= ttlOf(msg.Answer[j]) && (dyntype(msg.Answer[j], *dns.RRSIG) ==> result <= sigTTL(as(msg.Answer[j], *dns.RRSIG), now))
+//@   assert at return#6: forall j int :: {msg.Ns[j]} 0 <= j && j < len(msg.Ns) ==> result <= ttlOf(msg.Ns[j]) && (dyntype(msg.Ns[j], *dns.RRSIG) ==> result <= sigTTL(as(msg.Ns[j], *dns.RRSIG), now)) && (isNegative && dyntype(msg.Ns[j], *dns.SOA) ==> result <= time.Duration(as(msg.Ns[j], *dns.SOA).Minttl) * 1000000000)
+//@   assert at return#6: forall j int :: {msg.Extra[j]} 0 <= j && j < len(msg.Extra) && hdrOf(msg.Extra[j]).Rrtype != dns.TypeOPT ==> result <= ttlOf(msg.Extra[j])
